@@ -740,3 +740,20 @@ package saml
 
 //@ contract (*ServiceProvider).MakeLogoutRequest
 //@ requires[cfg] chain: certsOK(sp.Intermediates)
+
+//@ -- ------------------------------------------------------------------------------------------
+//@ -- C14: endpoint locations parsed from metadata are http(s) for the known bindings, blank for unknown ones
+//@ go func knownBinding(b string) bool {
+//@    return b == HTTPPostBinding || b == HTTPRedirectBinding || b == HTTPArtifactBinding || b == SOAPBinding || b == SOAPBindingV1 }
+//@ go func locationOK(b string, l string) bool {
+//@    return (knownBinding(b) && (SchemeOf(l) == "http" || SchemeOf(l) == "https")) || (!knownBinding(b) && l == "") }
+//@ contract checkEndpointLocation
+//@ ensures[C14] filtered: err == nil ==> locationOK(binding, result) && (knownBinding(binding) ==> result == location)
+//@ contract (*Endpoint).UnmarshalXML
+//@ requires[cfg] d: d != nil
+//@ ensures[C14] location: err == nil ==> locationOK(m.Binding, m.Location)
+//@ ensures[C14] response_location: err == nil && m.ResponseLocation != "" ==> locationOK(m.Binding, m.ResponseLocation)
+//@ contract (*IndexedEndpoint).UnmarshalXML
+//@ requires[cfg] d: d != nil
+//@ ensures[C14] location: err == nil ==> locationOK(m.Binding, m.Location)
+//@ ensures[C14] response_location: err == nil && m.ResponseLocation != nil ==> locationOK(m.Binding, *m.ResponseLocation) && *m.ResponseLocation != ""
